@@ -380,9 +380,12 @@ Returns:
             filled(var[:], getattr(var, 'missing_value', -999)).ravel())
 
     print(delim.join(keys), file=outfile)
+    codes = [None] + [getattr(f.variables[k], 'missing_value', -999)
+                      for k in depvarkeys]
     for row in array(vals).T:
-        row.tofile(outfile, format='%.6e', sep=delim)
-        print('', file=outfile)
+        # a cell holding the missing code is written as in the header
+        print(delim.join([str(c) if v == c else '%.6e' % v
+                          for v, c in zip(row, codes)]), file=outfile)
 
     return outfile
 
